@@ -171,7 +171,7 @@ private theorem visitM_avoid (T : Table) (i : Nat) (a : Node → Act) :
   | succ fuel ih =>
     intro m c s o hav h
     have hne : c.id ≠ i := fun he => hav (he ▸ id_mem_ids c)
-    simp only [visitM, actAt_enter_ne i a c s hne] at h
+    simp only [visitM, actAt_enter_ne i a c s hne, bodyMethod_of_kind_eq T _ c c rfl] at h
     split at h
     · simp at h
     · rename_i steps hm
@@ -465,7 +465,7 @@ theorem visitM_edit (T : Table) (hT : StepsDistinct T) (a : Node → Act) (x : N
         intro he
         rw [ids_unfold, List.nodup_cons] at hnd
         exact hnd.1 (he ▸ attr_ids_sub hg _ hxa)
-      simp only [visitM, actAt_enter_ne _ a t () hne, hm] at h
+      simp only [visitM, actAt_enter_ne _ a t () hne, bodyMethod_of_kind_eq T _ t t rfl, hm] at h
       split at h
       · simp at h
       · simp at h
@@ -503,7 +503,7 @@ theorem visitM_edit (T : Table) (hT : StepsDistinct T) (a : Node → Act) (x : N
         intro he
         rw [ids_unfold, List.nodup_cons] at hnd
         exact hnd.1 (he ▸ attr_ids_sub hg _ hxa)
-      simp only [visitM, actAt_enter_ne _ a t () hne, hm] at h
+      simp only [visitM, actAt_enter_ne _ a t () hne, bodyMethod_of_kind_eq T _ t t rfl, hm] at h
       split at h
       · simp at h
       · simp at h
@@ -605,17 +605,19 @@ theorem replace_at (T : Table) (hT : StepsDistinct T) (x t r : Node) (p : List (
     simp only [visitM, actAt_enter_eq x.id _ x () rfl] at hox
     split at hox
     · simp at hox
-    · rename_i steps hm
-      split at hox
+    · split at hox
       · simp at hox
-      · simp at hox
-      · rename_i n2 s2 tr hrs
-        have e := runSteps_idP (callTarget_avoid T x.id _ f') r steps
-          (fun st _ y d hg hd => avoid_kids hfresh hg hd) _ _ _ _ hrs
-        simp only [Res.ok.injEq] at hox
-        subst hox
-        subst e
-        simpa [editOf] using hed
+      · rename_i steps hm
+        split at hox
+        · simp at hox
+        · simp at hox
+        · rename_i n2 s2 tr hrs
+          have e := runSteps_idP (callTarget_avoid T x.id _ f') r steps
+            (fun st _ y d hg hd => avoid_kids hfresh hg hd) _ _ _ _ hrs
+          simp only [Res.ok.injEq] at hox
+          subst hox
+          subst e
+          simpa [editOf] using hed
 
 private theorem editAt_self (x : Node) : ∀ p t, Spec.nodeAt p t = some x → Spec.editAt p (.replace x) t = some (some t) := by
   intro p
